@@ -30,37 +30,78 @@ func init() {
 
 type walker struct {
 	f        *kit.Func
-	verbs    int
-	sprintf  *ast.CallExpr
-	strs     []*types.Var // string params in order
+	verbs    int           // number of id tokens in the subject
+	sprintf  ast.Expr      // the subject expression (anchor)
+	pubCall  *ast.CallExpr // the publishing call that carries it
+	tokens   []subjPart    // subject split at '.'
+	strs     []*types.Var  // string params in order
 	points   *types.Var
 	ancestor *types.Var
 }
 
+// isBusSend: a call that publishes on the bus (nc.Publish*, or a client.* helper taking the connection).
+func isBusSend(info *types.Info, call *ast.CallExpr) bool {
+	obj := kit.Callee(info, call)
+	q := kit.QualName(obj)
+	if strings.HasPrefix(q, natsPkg+".(*Conn).Publish") {
+		return true
+	}
+	if fn, ok := obj.(*types.Func); ok && fn.Pkg() != nil && fn.Pkg().Path() == clientPkg {
+		sig := fn.Type().(*types.Signature)
+		for i := 0; i < sig.Params().Len(); i++ {
+			if kit.IsNamedType(sig.Params().At(i).Type(), natsPkg, "Conn") {
+				return true
+			}
+		}
+	}
+	return false
+}
+
+// findWalkers: self-recursive store functions that publish on a subject whose
+// first token is the literal "up" (however the subject string is put together).
 func findWalkers(c *kit.Ctx) []*walker {
 	var out []*walker
 	for _, f := range c.P.Funcs("store") {
 		if f.Decl == nil || f.Body == nil {
 			continue
 		}
-		var sp *ast.CallExpr
 		self := false
 		for _, call := range f.AllCalls(false) {
-			if kit.CallIs(f.Info(), call, "fmt.Sprintf") && len(call.Args) > 0 {
-				if s, ok := kit.ConstString(f.Info(), call.Args[0]); ok && strings.HasPrefix(s, "up.") {
-					sp = call
-				}
-			}
 			if f.CalleeFunc(call) == f {
 				self = true
 			}
 		}
-		if sp == nil || !self {
+		if !self {
 			continue
 		}
-		w := &walker{f: f, sprintf: sp}
-		format, _ := kit.ConstString(f.Info(), sp.Args[0])
-		w.verbs = strings.Count(format, "%")
+		var w *walker
+		for _, call := range f.AllCalls(false) {
+			if !isBusSend(f.Info(), call) {
+				continue
+			}
+			for _, a := range call.Args {
+				if b, ok := f.Info().TypeOf(a).Underlying().(*types.Basic); !ok || b.Kind() != types.String {
+					continue
+				}
+				parts, ok := subjectParts(f, a, nil, 0)
+				if !ok {
+					continue
+				}
+				toks, ok := subjectLayout(parts)
+				if !ok || len(toks) == 0 || toks[0].obj != nil || toks[0].lit != "up" {
+					continue
+				}
+				w = &walker{f: f, sprintf: a, pubCall: call, tokens: toks}
+				for _, t := range toks[1:] {
+					if t.obj != nil {
+						w.verbs++
+					}
+				}
+			}
+		}
+		if w == nil {
+			continue
+		}
 		for _, p := range f.Params() {
 			if b, ok := p.Type().Underlying().(*types.Basic); ok && b.Kind() == types.String {
 				w.strs = append(w.strs, p)
@@ -355,56 +396,38 @@ func c06WalkerShape(c *kit.Ctx, m *storeModel, r2 *kit.Rule, w *walker, upf *kit
 	} else {
 		oUp.OK("%s", f.Str(upCall))
 	}
-	// Sprintf args: ancestor first, then the other string params in order
+	// subject tokens: "up", the ancestor, then the other string params in order
 	exp := []*types.Var{w.ancestor}
 	for _, p := range w.strs {
 		if p != w.ancestor {
 			exp = append(exp, p)
 		}
 	}
-	for i, a := range w.sprintf.Args[1:] {
-		if i >= len(exp) || kit.ObjOf(info, a) != exp[i] {
-			oPub.Violation("subject token %d is `%s`, expected parameter `%s`", i+1, f.Str(a), exp[min(i, len(exp)-1)].Name())
+	ids := w.tokens[1:]
+	if len(ids) != len(exp) {
+		oPub.Violation("subject has %d tokens after \"up\", walker has %d id parameters", len(ids), len(exp))
+		return
+	}
+	for i, t := range ids {
+		if t.obj != types.Object(exp[i]) {
+			got := t.lit
+			if t.obj != nil {
+				got = t.obj.Name()
+			}
+			oPub.Violation("subject token %d is `%s`, expected parameter `%s`", i+1, got, exp[i].Name())
 			return
 		}
 	}
-	if len(w.sprintf.Args)-1 != len(exp) {
-		oPub.Violation("subject has %d tokens, walker has %d id parameters", len(w.sprintf.Args)-1, len(exp))
-		return
-	}
-	// the subject variable
-	var subj types.Object
-	if as, ok := c.P.Parent(f.File, w.sprintf).(*ast.AssignStmt); ok && len(as.Lhs) == 1 {
-		subj = kit.ObjOf(info, as.Lhs[0])
-	}
 	isPublish := func(call *ast.CallExpr) bool {
-		obj := kit.Callee(info, call)
-		q := kit.QualName(obj)
-		pub := strings.HasPrefix(q, natsPkg+".(*Conn).Publish")
-		if fn, ok := obj.(*types.Func); ok && fn.Pkg() != nil && fn.Pkg().Path() == clientPkg {
-			sig := fn.Type().(*types.Signature)
-			for i := 0; i < sig.Params().Len(); i++ {
-				if kit.IsNamedType(sig.Params().At(i).Type(), natsPkg, "Conn") {
-					pub = true
-				}
-			}
-		}
-		if !pub {
+		if call != w.pubCall {
 			return false
 		}
-		hasSubj, hasPts := false, false
 		for _, a := range call.Args {
-			if subj != nil && kit.ObjOf(info, a) == subj {
-				hasSubj = true
-			}
-			if a == ast.Expr(w.sprintf) || ast.Unparen(a) == ast.Expr(w.sprintf) {
-				hasSubj = true
-			}
-			if kit.ObjOf(info, a) == w.points {
-				hasPts = true
+			if kit.ObjOf(info, a) == types.Object(w.points) {
+				return true
 			}
 		}
-		return hasSubj && hasPts
+		return false
 	}
 	// flow: publish before any return; loop iterations each self-call
 	var upsVar types.Object
@@ -412,6 +435,7 @@ func c06WalkerShape(c *kit.Ctx, m *storeModel, r2 *kit.Rule, w *walker, upf *kit
 		upsVar = kit.ObjOf(info, as.Lhs[0])
 	}
 	st := &kit.Std{F: f}
+	loops := map[string]*ast.RangeStmt{}
 	var missedIter, badSelf string
 	st.OnCall = func(call *ast.CallExpr, n ast.Node, s kit.S) []kit.S {
 		if isPublish(call) {
@@ -427,8 +451,9 @@ func c06WalkerShape(c *kit.Ctx, m *storeModel, r2 *kit.Rule, w *walker, upf *kit
 			for i, p := range params {
 				ao := kit.ObjOf(info, call.Args[i])
 				if p == w.ancestor {
-					if ao == nil || s.Get("rv") != kit.VarID(ao) {
-						badSelf = "self-call does not pass the current parent (range variable) as ancestor, got `" + f.Str(call.Args[i]) + "`"
+					lp := loops[s.Get("rv")]
+					if lp == nil || !(kit.LoopElem(info, lp, call.Args[i]) || (ao != nil && kit.ElemAliases(info, lp)[ao])) {
+						badSelf = "self-call does not pass the current parent (element of the loop over the parents) as ancestor, got `" + f.Str(call.Args[i]) + "`"
 					}
 				} else if ao != p {
 					badSelf = "self-call passes `" + f.Str(call.Args[i]) + "` for parameter `" + p.Name() + "` (must be forwarded unchanged)"
@@ -447,12 +472,8 @@ func c06WalkerShape(c *kit.Ctx, m *storeModel, r2 *kit.Rule, w *walker, upf *kit
 		if s.Get("iter") == "0" {
 			missedIter = "an iteration over the parents can finish without the recursive call"
 		}
-		rv := ""
-		if br.Range.Value != nil {
-			if o := kit.ObjOf(info, br.Range.Value); o != nil {
-				rv = kit.VarID(o)
-			}
-		}
+		rv := strconv.Itoa(int(br.Range.Pos()))
+		loops[rv] = br.Range
 		return []kit.S{s.Set("iter", "0").Set("rv", rv).Set("lp", "1")}, []kit.S{s.Del("iter").Del("rv").Set("lp", "1")}, true
 	}
 	// the top-of-tree sentinel test on the ancestor parameter
@@ -483,11 +504,13 @@ func c06WalkerShape(c *kit.Ctx, m *storeModel, r2 *kit.Rule, w *walker, upf *kit
 			missedIter = "the loop over the parents can be left (return) before the recursive call of an iteration"
 		}
 		if e.State.Has("iter") && e.Return != nil {
-			inLoop := f.Enclosing(e.Return, func(n ast.Node) bool {
-				rs, ok := n.(*ast.RangeStmt)
-				return ok && upsVar != nil && kit.ObjOf(info, rs.X) == upsVar
-			})
-			if inLoop == nil {
+			inLoop := false
+			for _, rs := range f.SliceLoops(f.Body) {
+				if upsVar != nil && kit.ObjOf(info, rs.X) == upsVar && rs.Body.Pos() <= e.Return.Pos() && e.Return.End() <= rs.Body.End() {
+					inLoop = true
+				}
+			}
+			if !inLoop {
 				missedIter = "the loop over the parents can be left early (break/goto) so that the remaining parents are not visited"
 			}
 		}
@@ -499,16 +522,15 @@ func c06WalkerShape(c *kit.Ctx, m *storeModel, r2 *kit.Rule, w *walker, upf *kit
 	if nopub != "" {
 		oPub.Violation("%s", nopub)
 	} else {
-		oPub.OK("publish with `%s` and the points parameter dominates every exit", f.Str(w.sprintf))
+		oPub.OK("publish on `%s` with the points parameter dominates every exit", f.Str(w.sprintf))
 	}
 	// the loop must exist
 	hasLoop := false
-	ast.Inspect(f.Body, func(n ast.Node) bool {
-		if rs, ok := n.(*ast.RangeStmt); ok && upsVar != nil && kit.ObjOf(info, rs.X) == upsVar {
+	for _, rs := range f.SliceLoops(f.Body) {
+		if upsVar != nil && kit.ObjOf(info, rs.X) == upsVar {
 			hasLoop = true
 		}
-		return true
-	})
+	}
 	switch {
 	case !hasLoop:
 		oRec.Violation("no loop over the result of the parent lookup")
@@ -553,46 +575,56 @@ func c06UpTable(c *kit.Ctx, m *storeModel, r3 *kit.Rule, upf *kit.Func) {
 	if edgesVar == nil {
 		c.Fatalf("R3: edges result variable not found in %s", f.Name)
 	}
-	var elem types.Object
-	ast.Inspect(f.Body, func(n ast.Node) bool {
-		if rs, ok := n.(*ast.RangeStmt); ok && kit.ObjOf(info, rs.X) == edgesVar && rs.Value != nil {
-			elem = kit.ObjOf(info, rs.Value)
+	var lp *ast.RangeStmt
+	for _, rs := range f.SliceLoops(f.Body) {
+		if kit.ObjOf(info, rs.X) == edgesVar {
+			lp = rs
 		}
-		return true
-	})
-	if elem == nil {
-		c.Fatalf("R3: no range over the edges in %s", f.Name)
 	}
-	// variables holding the edge's tombstone point: p, _ := e.Points.Find(tombstone, …)
-	tombVars := map[types.Object]bool{}
-	ast.Inspect(f.Body, func(n ast.Node) bool {
-		as, ok := n.(*ast.AssignStmt)
-		if !ok || len(as.Rhs) != 1 {
-			return true
-		}
-		call, ok := ast.Unparen(as.Rhs[0]).(*ast.CallExpr)
-		if !ok || !kit.CallIs(info, call, dataPkg+".(*Points).Find", dataPkg+".(Points).Find") || len(call.Args) < 1 {
-			return true
-		}
-		if s, ok := kit.ConstString(info, call.Args[0]); !ok || s != tomb {
-			return true
-		}
-		sel, ok := ast.Unparen(call.Fun).(*ast.SelectorExpr)
-		if !ok {
-			return true
-		}
-		if inner, ok := ast.Unparen(sel.X).(*ast.SelectorExpr); ok && kit.ObjOf(info, inner.X) == elem {
-			if o := kit.ObjOf(info, as.Lhs[0]); o != nil {
-				tombVars[o] = true
-			}
-		}
-		return true
-	})
+	if lp == nil {
+		c.Fatalf("R3: no loop over the edges in %s", f.Name)
+	}
+	aliases := kit.ElemAliases(info, lp)
 	for _, inclV := range []bool{false, true} {
 		for _, tv := range []float64{0, 1} {
 			st := &kit.Std{F: f}
+			// predicates on the edge (edgeIsDeleted(e)) are evaluated inline
+			st.ShouldInline = func(cf *kit.Func, call *ast.CallExpr) bool { return txParamOf(cf) == nil }
+			isElem := func(e ast.Expr) bool {
+				e = ast.Unparen(st.Resolve(e))
+				if kit.LoopElem(info, lp, e) {
+					return true
+				}
+				o := kit.ObjOf(info, e)
+				return o != nil && aliases[o]
+			}
+			// variables holding the edge's tombstone point: p, _ := e.Points.Find(tombstone, …)
+			tombVars := map[types.Object]bool{}
+			st.OnNode = func(n ast.Node, s kit.S) []kit.S {
+				as, ok := n.(*ast.AssignStmt)
+				if !ok || len(as.Rhs) != 1 {
+					return []kit.S{s}
+				}
+				call, ok := ast.Unparen(as.Rhs[0]).(*ast.CallExpr)
+				if !ok || !kit.CallIs(info, call, dataPkg+".(*Points).Find", dataPkg+".(Points).Find") || len(call.Args) < 1 {
+					return []kit.S{s}
+				}
+				if cs, ok := kit.ConstString(info, call.Args[0]); !ok || cs != tomb {
+					return []kit.S{s}
+				}
+				sel, ok := ast.Unparen(call.Fun).(*ast.SelectorExpr)
+				if !ok {
+					return []kit.S{s}
+				}
+				if inner, ok := ast.Unparen(sel.X).(*ast.SelectorExpr); ok && isElem(inner.X) {
+					if o := kit.ObjOf(info, as.Lhs[0]); o != nil {
+						tombVars[o] = true
+					}
+				}
+				return []kit.S{s}
+			}
 			st.Eval.Atom = func(e ast.Expr) (string, bool, bool) {
-				if kit.ObjOf(info, e) == incl {
+				if st.ObjOf(e) == types.Object(incl) {
 					return "incl", false, true
 				}
 				return "", false, false
@@ -613,9 +645,12 @@ func c06UpTable(c *kit.Ctx, m *storeModel, r3 *kit.Rule, upf *kit.Func) {
 				undec = f.Str(e)
 				ast.Inspect(e, func(n ast.Node) bool {
 					if id, ok := n.(*ast.Ident); ok {
-						if o := kit.ObjOf(info, id); o != nil && (tombVars[o] || o == elem) {
+						if o := kit.ObjOf(info, id); o != nil && (tombVars[o] || aliases[o] || isElem(id)) {
 							undecRelated = true
 						}
+					}
+					if ix, ok := n.(*ast.IndexExpr); ok && isElem(ix) {
+						undecRelated = true
 					}
 					return true
 				})
@@ -623,14 +658,14 @@ func c06UpTable(c *kit.Ctx, m *storeModel, r3 *kit.Rule, upf *kit.Func) {
 			appended := map[string]bool{}
 			st.OnCall = func(call *ast.CallExpr, n ast.Node, s kit.S) []kit.S {
 				if b, ok := kit.Callee(info, call).(*types.Builtin); ok && b.Name() == "append" && len(call.Args) == 2 {
-					if sel, ok := ast.Unparen(call.Args[1]).(*ast.SelectorExpr); ok && sel.Sel.Name == "Up" && kit.ObjOf(info, sel.X) == elem && s.Get("iter") == "1" {
+					if sel, ok := ast.Unparen(call.Args[1]).(*ast.SelectorExpr); ok && sel.Sel.Name == "Up" && isElem(sel.X) && s.Get("iter") == "1" {
 						return []kit.S{s.Set("app", "1")}
 					}
 				}
 				return nil
 			}
 			st.OnBranch = func(br kit.Branch, s kit.S) (t, fl []kit.S, handled bool) {
-				if br.Kind == kit.BrRange && kit.ObjOf(info, br.Range.X) == edgesVar {
+				if br.Kind == kit.BrRange && br.Range == lp {
 					if !s.Has("iter") {
 						return []kit.S{s.Set("iter", "1")}, nil, true
 					}
@@ -789,15 +824,8 @@ func c06Subjects(c *kit.Ctx, r4 *kit.Rule, walkers []*walker) {
 		if !okShape || k == 0 {
 			continue
 		}
-		// chunks variable from strings.Split(msg.Subject, ".")
-		var chunks types.Object
-		for _, call := range f.AllCalls(false) {
-			if kit.CallIs(info, call, "strings.Split") && len(call.Args) == 2 && isMsgField(f, call.Args[0], msgParam(f), "Subject") {
-				if as, ok := c.P.Parent(f.File, call).(*ast.AssignStmt); ok && len(as.Lhs) == 1 {
-					chunks = kit.ObjOf(info, as.Lhs[0])
-				}
-			}
-		}
+		// chunks variable from strings.Split(msg.Subject, "."), possibly through a shared helper
+		chunks := subjectChunksVar(c, f, msgParam(f), 0)
 		if chunks == nil {
 			continue
 		}
@@ -836,21 +864,85 @@ func c06Subjects(c *kit.Ctx, r4 *kit.Rule, walkers []*walker) {
 		r4.Ob(nil, nil, "decoders", "four subject decoders").Undecided("only %d subject decoders found in package client", n)
 	}
 	for _, w := range walkers {
-		format, _ := kit.ConstString(w.f.Info(), w.sprintf.Args[0])
 		o := r4.Ob(w.f, w.sprintf, "walker subject format", "\"up\" followed by one token per id parameter, '.'-separated")
-		parts := strings.Split(format, ".")
-		ok := parts[0] == "up" && len(parts) == w.verbs+1
-		for _, p := range parts[1:] {
-			if p != "%v" && p != "%s" {
+		ok := len(w.tokens) == w.verbs+1 && len(w.tokens) >= 3
+		var shown []string
+		for i, t := range w.tokens {
+			if i > 0 && t.obj == nil {
 				ok = false
+			}
+			if t.obj != nil {
+				shown = append(shown, "<"+t.obj.Name()+">")
+			} else {
+				shown = append(shown, t.lit)
 			}
 		}
 		if ok {
-			o.OK("%q", format)
+			o.OK("%s", strings.Join(shown, "."))
 		} else {
-			o.Violation("format %q is not up.<id>… with %d plain tokens", format, w.verbs)
+			o.Violation("subject %s is not up.<id>… with one plain token per id", strings.Join(shown, "."))
 		}
 	}
+}
+
+// subjectChunksVar finds the variable of f that holds strings.Split(<msg>.Subject, "."):
+// assigned directly, or handed back (on the success return) by a same-package
+// helper that receives the message.
+func subjectChunksVar(c *kit.Ctx, f *kit.Func, msg *types.Var, depth int) types.Object {
+	info := f.Info()
+	var chunks types.Object
+	for _, call := range f.AllCalls(false) {
+		as, ok := c.P.Parent(f.File, call).(*ast.AssignStmt)
+		if !ok || len(as.Rhs) != 1 {
+			continue
+		}
+		if kit.CallIs(info, call, "strings.Split") && len(call.Args) == 2 && isMsgField(f, call.Args[0], msg, "Subject") {
+			if sep, ok := kit.ConstString(info, call.Args[1]); ok && sep == "." && len(as.Lhs) == 1 {
+				chunks = kit.ObjOf(info, as.Lhs[0])
+			}
+			continue
+		}
+		cf := f.CalleeFunc(call)
+		if cf == nil || cf.Body == nil || cf.Pkg != f.Pkg || depth > 1 {
+			continue
+		}
+		var hmsg *types.Var
+		for i, a := range call.Args {
+			if kit.ObjOf(info, a) == types.Object(msg) && i < len(cf.Params()) {
+				hmsg = cf.Params()[i]
+			}
+		}
+		if hmsg == nil {
+			continue
+		}
+		hc := subjectChunksVar(c, cf, hmsg, depth+1)
+		if hc == nil {
+			continue
+		}
+		// the result position that is the helper's chunks on every success return
+		pos := -1
+		okAll := true
+		for _, rs := range returnsOf(cf) {
+			if !kit.IsNilIdent(cf.Info(), rs[len(rs)-1]) {
+				continue
+			}
+			found := -1
+			for i, r := range rs {
+				if kit.ObjOf(cf.Info(), r) == hc {
+					found = i
+				}
+			}
+			if found < 0 || (pos >= 0 && pos != found) {
+				okAll = false
+			}
+			pos = found
+		}
+		if okAll && pos >= 0 && pos < len(as.Lhs) {
+			chunks = kit.ObjOf(info, as.Lhs[pos])
+			c.Analysed(cf)
+		}
+	}
+	return chunks
 }
 
 // chunkIndexOf resolves e (a variable assigned chunks[i], or chunks[i] itself).
